@@ -195,6 +195,69 @@ fn run_vector(server: SocketAddr, n: u32, v: &Value, eager: bool) -> Result<Outc
     Ok(Outcome { problems, steps_served: served, steps: order.len(), after_order })
 }
 
+/// Pipe.tla's timer expiries on the HTTP/3 stream halves: one tunnel whose idle timeout is a few milliseconds; one direction
+/// streams `total` position-coded bytes (the client's stream window is small, so the download's sink keeps parking in
+/// wait_writable) while the other is silent and expires every T, dropping and restarting the busy direction's pending future.
+/// Returns (what the reader got, ended cleanly, note).
+fn run_ticks(server: SocketAddr, n: u32, up: bool, total: usize) -> Result<(Vec<u8>, bool, String), String> {
+    let to = Duration::from_secs(10);
+    let mut c = H3Conn::connect(server, &ClientOpts { src_ip: source_ip(n), windows: Some((1 << 20, 96 * 1024)), ..Default::default() }).map_err(|e| format!("handshake: {:?}", e))?;
+    c.body_keep = total + 1;
+    let listener = TcpListener::bind("127.0.0.1:0").map_err(|e| e.to_string())?;
+    let target = format!("127.0.0.1:{}", listener.local_addr().unwrap().port());
+    let sid = c.request(&request_headers("CONNECT", &target, &[("user-agent", b"verif-harness")]), false)?;
+    c.hold.insert(sid);
+    if !c.run_until(to, |c| c.streams.get(&sid).map(|s| !s.heads.is_empty() || s.ended()).unwrap_or(false)) || c.stream(sid).status(0) != 200 {
+        return Err("CONNECT not answered 200".into());
+    }
+    let mut peer = accept(&listener, to)?;
+    let salt = if up { 7 } else { 101 };
+    if up {
+        let reader = std::thread::spawn(move || {
+            let _ = peer.set_read_timeout(Some(Duration::from_secs(10)));
+            let mut got = Vec::new();
+            let mut b = vec![0u8; 65536];
+            let mut clean = false;
+            loop {
+                match peer.read(&mut b) { Ok(0) => { clean = true; break; } Ok(k) => got.extend_from_slice(&b[..k]), Err(_) => break }
+            }
+            (got, clean)
+        });
+        let mut note = String::new();
+        let mut sent = 0;
+        while sent < total {
+            let k = 8192.min(total - sent);
+            let data: Vec<u8> = (sent..sent + k).map(|p| code(p, salt)).collect();
+            if let Err(e) = c.send_data(sid, &data, false, Duration::from_secs(5)) { note = format!("client write stopped after {} bytes: {}", sent, e); break; }
+            sent += k;
+            c.linger(Duration::from_millis(1));
+            if c.stream(sid).ended() { note = format!("the stream ended after {} bytes were written (reset {:?})", sent, c.stream(sid).reset); break; }
+        }
+        if note.is_empty() { let _ = c.send_data(sid, b"", true, Duration::from_secs(2)); }
+        c.linger(Duration::from_millis(200));
+        let (got, clean) = reader.join().map_err(|_| "destination thread panicked".to_string())?;
+        c.close();
+        Ok((got, clean, note))
+    } else {
+        let writer = spawn_destination(peer, total, salt);
+        let deadline = Instant::now() + Duration::from_secs(40);
+        let mut last = (0u64, Instant::now());
+        loop {
+            c.read_body(sid, usize::MAX);
+            c.linger(Duration::from_millis(1));
+            let s = &c.streams[&sid];
+            if s.body_len != last.0 { last = (s.body_len, Instant::now()); }
+            if s.ended() || c.is_closed() || Instant::now() >= deadline || last.1.elapsed() > Duration::from_secs(6) { break; }
+        }
+        let s = c.stream(sid);
+        let note = if s.finished { String::new() } else if let Some(r) = s.reset { format!("stream reset {:#x}", r) } else if c.is_closed() { format!("connection closed: {}", c.close_reason()) } else { "stalled: nothing arrived for 6 s while the client reads".to_string() };
+        c.close();
+        drop(c);
+        let _ = writer.join();
+        Ok((s.body, s.finished, note))
+    }
+}
+
 static PANICS: Mutex<Vec<String>> = Mutex::new(Vec::new());
 
 fn fnv(seed: u64, key: &str) -> u64 {
@@ -308,6 +371,52 @@ fn main() {
                 }
             }
         }
+    }
+    // ---- frequent expiries on the HTTP/3 stream halves (Pipe.tla TimedOut; the endpoints' cancel-safety)
+    if std::env::args().any(|a| a == "--ticks") {
+        let rounds = if tier_thorough() { 3 } else { 1 };
+        trusttunnel::verif::start_recording();
+        for t_ms in [12u64, 30] {
+            let ept = start_endpoint(&server_rt, &EndpointOpts { allow_private: true, establishment_timeout: Duration::from_secs(5), tcp_timeout: Some(Duration::from_millis(t_ms)), ..Default::default() });
+            for round in 0..rounds {
+                for up in [true, false] {
+                    let total = if up { 2 << 20 } else { 6 << 20 };
+                    let dir = if up { "upload" } else { "download" };
+                    let desc = json!({"kind": "ticks", "proto": "h3", "direction": dir, "idle_timeout_ms": t_ms, "bytes": total});
+                    rep.eval();
+                    let d2 = desc.clone();
+                    watchdog::enter(move || ("pipe-e2e-ticks:h3:hang".into(), "scenario did not finish".into(), d2));
+                    let _ = trusttunnel::verif::drain_events();
+                    let r = catch(|| run_ticks(ept.addr, 200 + (t_ms as u32) * 10 + round as u32 * 2 + up as u32, up, total)).unwrap_or_else(|p| Err(format!("client panic: {}", p)));
+                    std::thread::sleep(Duration::from_millis(50));
+                    let ev = trusttunnel::verif::drain_events();
+                    watchdog::leave();
+                    let ticks = ev.iter().filter(|l| l.contains("\"ev\":\"XC\"")).count() as u64;
+                    let expired = ev.iter().any(|l| l.contains("\"ev\":\"XC\"") && l.contains("\"expired\":true"));
+                    rep.count("tick_expiries", ticks);
+                    match r {
+                        Err(e) => rep.violation_with(format!("pipe-e2e-ticks:h3:{}:setup", dir), e, || desc.clone()),
+                        Ok((got, clean, note)) => {
+                            let salt = if up { 7 } else { 101 };
+                            if let Some(i) = (0..got.len()).find(|i| got[*i] != code(*i, salt)) {
+                                rep.violation_with(format!("pipe-e2e-ticks:h3:{}:data", dir), format!("byte {} of the relayed stream differs from what was sent ({} expiries of the silent direction in this tunnel)", i, ticks),
+                                    || json!({"scenario": desc, "first_difference": i, "delivered": got.len(), "note": note}));
+                            } else if expired {
+                                rep.count("tick_runs_ended_by_idle_timer", 1); // a pause longer than 2T: the prefix was checked
+                            } else if got.len() != total || !clean {
+                                rep.violation_with(format!("pipe-e2e-ticks:h3:{}:end", dir), format!("{} of {} bytes delivered, clean end: {} ({} expiries; {})", got.len(), total, clean, ticks, note),
+                                    || json!({"scenario": desc, "delivered": got.len(), "clean_end": clean, "note": note}));
+                            } else {
+                                rep.count("tick_runs_complete", 1);
+                                if ticks >= 10 { rep.nontrivial(format!("ticks|h3|{}|{}", dir, t_ms)); }
+                            }
+                        }
+                    }
+                }
+            }
+            ept.stop();
+        }
+        let _ = trusttunnel::verif::stop_recording();
     }
     std::thread::sleep(Duration::from_millis(100));
     if !ep.is_running() {
